@@ -54,8 +54,8 @@ impl Path {
         ensures (r is Some) == (plast(self.key()) is Some), r is Some ==> r->Some_0.key() == plast(self.key())->Some_0
     { unimplemented!() }
 
-    /// stat(2).  DOCUMENTED WEAKNESS (DESIGN §5 C04): `exists`/`is_dir` below turn a failed stat into `false`
-    /// without any error to propagate; that is std's API, so no fault is counted for them.
+    /// stat(2).  A-probe (DESIGN §6): `exists`/`is_dir` below are assumed to answer truthfully.  std turns a stat
+    /// that fails for another reason than ENOENT into `false` with no error to propagate; that case is outside the model.
     #[verifier::external_body]
     pub fn metadata(&self, Tracked(w): Tracked<&mut World>) -> (r: std::result::Result<Metadata, io::Error>)
         ensures fr_ro(*old(w), *final(w)),
@@ -72,12 +72,12 @@ impl Path {
                 && (old(w).paths[self.key()].kind != NodeKind::Symlink ==> meta_of_node(r->Ok_0, old(w).paths[self.key()], old(w).files)),
     { unimplemented!() }
     #[verifier::external_body]
-    pub fn exists(&self, Tracked(w): Tracked<&mut World>) -> (r: bool)
-        ensures *final(w) == *old(w), r ==> exists_m(old(w).paths, self.key()),
+    pub fn exists(&self, Tracked(w): Tracked<&World>) -> (r: bool)
+        ensures r == exists_m(w.paths, self.key()),
     { unimplemented!() }
     #[verifier::external_body]
-    pub fn is_dir(&self, Tracked(w): Tracked<&mut World>) -> (r: bool)
-        ensures *final(w) == *old(w), r ==> is_dir_m(old(w).paths, self.key()),
+    pub fn is_dir(&self, Tracked(w): Tracked<&World>) -> (r: bool)
+        ensures r == is_dir_m(w.paths, self.key()),
     { unimplemented!() }
 }
 
